@@ -57,7 +57,7 @@ theorem BV.shr_bit (a : BV) (ha : a.WF) (k i : Nat) :
       exact Nat.testBit_lt_two_pow (Nat.lt_of_lt_of_le ha (Nat.pow_le_pow_right (by omega) (by omega)))
 
 /-- a result with the same length, enough allocation, and the bits of the spec refines it -/
-theorem Raw.refines_of_bits (s t : Raw w) (hw : 0 < w) (_h : s.Inv) (b : BV)
+theorem Raw.refines_of_bits (s t : Raw w) (hw : 0 < w) (b : BV)
     (hlen : t.length = s.length) (hcap : s.length ≤ t.data.size * w) (hbl : b.len = s.length)
     (hz : ∀ i, s.length ≤ i → b.bit i = false)
     (hb : ∀ i, bitAt t.data i = b.bit i) : t.Inv ∧ t.abs = b := by
@@ -191,7 +191,7 @@ theorem shrAssign_length (s : Raw w) (k : Nat) : (s.shrAssign k).length = s.leng
 
 theorem shrAssign_refines (s : Raw w) (hw : 0 < w) (h : s.Inv) (k : Nat) :
     (s.shrAssign k).Inv ∧ (s.shrAssign k).abs = s.abs.shr k := by
-  apply Raw.refines_of_bits s _ hw h _ (shrAssign_length s k)
+  apply Raw.refines_of_bits s _ hw _ (shrAssign_length s k)
     (by rw [shrAssign_size s hw h k]; exact h.1)
   · unfold BV.shr; split <;> rfl
   · intro i hi
@@ -341,7 +341,7 @@ theorem shlAssign_length (s : Raw w) (k : Nat) : (s.shlAssign k).length = s.leng
 
 theorem shlAssign_refines (s : Raw w) (hw : 0 < w) (h : s.Inv) (k : Nat) :
     (s.shlAssign k).Inv ∧ (s.shlAssign k).abs = s.abs.shl k := by
-  apply Raw.refines_of_bits s _ hw h _ (shlAssign_length s k)
+  apply Raw.refines_of_bits s _ hw _ (shlAssign_length s k)
     (by rw [shlAssign_size s hw h k]; exact h.1)
   · unfold BV.shl; split <;> rfl
   · intro i hi
@@ -585,7 +585,7 @@ theorem BV.shlIn_bit (a : BV) (ha : a.WF) (b : Bool) (i : Nat) :
 theorem Raw.shlIn_refines (s : Raw w) (hw : 0 < w) (h : s.Inv) (b : Bool) :
     ((s.shlIn b).1).Inv ∧ ((s.shlIn b).1.abs, (s.shlIn b).2) = s.abs.shlIn b := by
   obtain ⟨h1, h2, h3, h4⟩ := Raw.shlIn_bits s hw h b
-  have hr := Raw.refines_of_bits s (s.shlIn b).1 hw h (s.abs.shlIn b).1 h1
+  have hr := Raw.refines_of_bits s (s.shlIn b).1 hw (s.abs.shlIn b).1 h1
     (by rw [h2]; exact h.1) (BV.shlIn_len _ _)
     (by intro i hi
         rw [BV.shlIn_bit _ (h.wf hw)]
@@ -849,7 +849,7 @@ theorem BV.shrIn_bit (a : BV) (ha : a.WF) (b : Bool) (i : Nat) :
 theorem Raw.shrIn_refines (s : Raw w) (hw : 0 < w) (h : s.Inv) (b : Bool) :
     ((s.shrIn b).1).Inv ∧ ((s.shrIn b).1.abs, (s.shrIn b).2) = s.abs.shrIn b := by
   obtain ⟨h1, h2, h3, h4⟩ := Raw.shrIn_bits s hw h b
-  have hr := Raw.refines_of_bits s (s.shrIn b).1 hw h (s.abs.shrIn b).1 h1
+  have hr := Raw.refines_of_bits s (s.shrIn b).1 hw (s.abs.shrIn b).1 h1
     (by rw [h2]; exact h.1) (BV.shrIn_len _ _)
     (by intro i hi
         rw [BV.shrIn_bit _ (h.wf hw)]
@@ -924,7 +924,7 @@ theorem shrRef_refines (s : Raw 64) (h : s.Inv) (k : Nat) :
   have hsz : (shrRef s k).data.size = capW s.length :=
     (shrRefLoop_spec s.data k s.length (Array.replicate (capW s.length) 0#64) 0
       (by simp) (by intro i; rw [bitAt_replicate_zero]; simp)).1
-  apply Raw.refines_of_bits s (shrRef s k) hw h (s.abs.shr k) rfl
+  apply Raw.refines_of_bits s (shrRef s k) hw (s.abs.shr k) rfl
     (by rw [hsz]; unfold capW capFromBitLen; omega)
   · unfold BV.shr; split <;> rfl
   · intro i hi
@@ -977,7 +977,8 @@ theorem shlRefLoop_spec (old : Array (BitVec 64)) (shift length : Nat)
     rw [hmin]
     exact ⟨hsz, hinv⟩
 
-theorem shlRef_bits (s : Raw 64) (h : s.Inv) (k i : Nat) :
+/-- holds for any `s` (the invariant of the operand is not needed: fresh zero storage) -/
+theorem shlRef_bits (s : Raw 64) (k i : Nat) :
     bitAt (shlRef s k).data i = (decide (k ≤ i ∧ i < s.length) && bitAt s.data (i - k)) := by
   obtain ⟨_, hb⟩ := shlRefLoop_spec s.data k s.length (Array.replicate (capW s.length) 0#64) s.length
     (by simp) (Nat.le_refl _)
@@ -993,7 +994,8 @@ theorem shlRef_bits (s : Raw 64) (h : s.Inv) (k i : Nat) :
   · have h2 : ¬ (min k s.length ≤ i ∧ i < s.length) := by omega
     rw [decide_eq_false h1, decide_eq_false h2]
 
-theorem shlRef_refines (s : Raw 64) (h : s.Inv) (k : Nat) :
+/-- `shlRef` refines `BV.shl` even when the operand violates `Inv` -/
+theorem shlRef_refines_any (s : Raw 64) (k : Nat) :
     (shlRef s k).Inv ∧ (shlRef s k).abs = s.abs.shl k := by
   have hw : 0 < 64 := by decide
   have hsz : (shlRef s k).data.size = capW s.length :=
@@ -1002,7 +1004,7 @@ theorem shlRef_refines (s : Raw 64) (h : s.Inv) (k : Nat) :
       (by intro i; rw [bitAt_replicate_zero]
           have : ¬ (s.length ≤ i ∧ i < s.length) := by omega
           rw [decide_eq_false this]; simp)).1
-  apply Raw.refines_of_bits s (shlRef s k) hw h (s.abs.shl k) rfl
+  apply Raw.refines_of_bits s (shlRef s k) hw (s.abs.shl k) rfl
     (by rw [hsz]; unfold capW capFromBitLen; omega)
   · unfold BV.shl; split <;> rfl
   · intro i hi
@@ -1010,7 +1012,11 @@ theorem shlRef_refines (s : Raw 64) (h : s.Inv) (k : Nat) :
     have : ¬ (k ≤ i ∧ i < s.abs.len) := by rw [Raw.abs_len]; omega
     simp [this]
   · intro i
-    rw [shlRef_bits s h, BV.shl_bit, Raw.abs_bit _ _ hw, Raw.abs_len]
+    rw [shlRef_bits s, BV.shl_bit, Raw.abs_bit _ _ hw, Raw.abs_len]
+
+theorem shlRef_refines (s : Raw 64) (_h : s.Inv) (k : Nat) :
+    (shlRef s k).Inv ∧ (shlRef s k).abs = s.abs.shl k :=
+  shlRef_refines_any s k
 
 end Bvd
 
